@@ -88,6 +88,20 @@ CHECKS["C03"] = dict(
     note="Trusted: code 0 = identity (only convention used), reference evaluator for the base numbering, Lagrange/DG nodal sampling of polynomial fields.",
     design="5/C03",
 )
+CHECKS["C07"] = dict(
+    category="exploration",
+    technique="Hypothesis RuleBasedStateMachine over call histories of a generated kernel pool (bitwise history-independence, accumulation, input immutability, thread-pool batches) + clang ThreadSanitizer driver + nm scan for writable static storage",
+    text="Call histories (repeats, interleavings, pre-fills zero/random/huge/previous result, concurrent batches from a thread pool on disjoint A) are generated as one shrinkable value; equal (kernel, inputs, A_before) must give bit-identical A_after anywhere in the history and on any thread, A_after - A_before must equal the zero-start result, inputs and guard zones must be untouched; a ThreadSanitizer build runs each kernel from 4 threads on shared inputs; the compiled object must contain no writable statics besides descriptors. Thread interleavings are not enumerated.",
+    note="Trusted: cffi releases the GIL (checked at design time), TSan's happens-before analysis, nm symbol types.",
+    design="5/C07",
+)
+CHECKS["C08"] = dict(
+    category="exploration",
+    technique="Hypothesis-generated kernels of all kinds run natively under clang ASan/UBSan with exact-extent heap buffers for every valid (entity, permutation) tuple + execution of FFCx's kernel AST in a bounds-checking LNodes interpreter",
+    text="For generated forms (all integral types and cells, diagonal part, sum factorisation) and expressions the generated C is linked with a generated driver whose buffers have exactly the extents the form implies (NULL entity/permutation pointers for cell kernels) and run under AddressSanitizer+UBSan for all entity indices and permutation codes; small forms are additionally interpreted at AST level with a bounds check on every array access of every loop iteration, which also covers the kernel's own tables. Forms are sampled; entity/permutation tuples of each sampled kernel are exhausted in the native run.",
+    note="Trusted: clang sanitizers; extents computed from UFL/basix by the harness.",
+    design="5/C08",
+)
 PENDING = {}
 
 def main():
